@@ -3,6 +3,7 @@ import GoguVerif.Model.Lock
 import GoguVerif.Gen.LockTable
 import GoguVerif.Spec.C05
 import GoguVerif.Spec.C06
+import GoguVerif.Theorems.C02Fine
 /-!
 # C02 — linearizability of single-element container operations
 
@@ -17,9 +18,14 @@ Table obligation (regenerated from the source on every run): every single-elemen
 the property is ONE locked section on every path (`lin_table_ok`), except the listed operations whose
 last section alone determines effect and result.
 
-That the fine-grained execution of one locked section is equivalent to its atomic execution is
-C01's mutual exclusion + the Go memory model (DRF-SC): an explicit assumption (DESIGN.md C02,
-"Theorem 2"); it is validated by the exhaustive interleaving run of the real code.
+Theorem 2 (`Theorems/C02Fine.lean: fine_refines_atomic`, generic): the fine-grained execution of
+methods that are ONE locked section each (micro-steps interleaving under the RWMutex admission
+rules, read-mode bodies not writing the shared state) is an execution of the atomic system with
+the same events; `fine_linearizable` below composes it with Theorem 1, and `queue_fine_linearizable`
+instantiates it for a queue whose `Dequeue` body is two separate micro-steps.  What stays assumed:
+that the real sections are such bodies (regenerated table + container models), and that race-free
+Go programs are sequentially consistent (C01 + Go memory model); the exhaustive interleaving run
+of the real code validates it.
 -/
 namespace GoguVerif.Theorems.C02
 open GoguVerif.Model.Lin
@@ -273,5 +279,61 @@ example : ∃ h s, Reach fifoObj h s ∧ h.length = 4 := by
   refine ⟨_, _, Reach.step (Reach.step (Reach.step (Reach.step Reach.init
     (Step.inv _ 0 (.enqueue 1) rfl)) (Step.inv _ 1 .dequeue (by simp [Model.Lin.upd])))
     (Step.lin _ 1 1 .dequeue (by simp [Model.Lin.upd]))) (Step.lin _ 0 0 (.enqueue 1) (by simp [Model.Lin.upd])), rfl⟩
+
+/-! ## Theorem 1 ∘ Theorem 2 -/
+
+open GoguVerif.Model in
+/-- Every history of the FINE-GRAINED system (micro-steps of lock-guarded single-section methods
+interleaving under the RWMutex rules) is linearizable: the operations in the order of their lock
+acquisitions form a legal sequential run of the methods' sequential meaning, producing exactly the
+values returned, and ending in the abstract object state. -/
+theorem fine_linearizable {lam : Type} {meth : Op → Fine.Meth σ lam Ret} (ro : Fine.ReadOnly meth)
+    {init : σ} {h s} (r : Fine.Reach meth init h s) :
+    Legal (Fine.obj meth init) init (linOps h) s.absObj :=
+  lin_legal (C02Fine.fine_refines_atomic ro r).2
+
+open GoguVerif.Model in
+/-- … and returned values / real-time order carry over, because the fine-grained history IS a history of
+the atomic system. -/
+theorem fine_history_is_atomic {lam : Type} {meth : Op → Fine.Meth σ lam Ret} (ro : Fine.ReadOnly meth)
+    {init : σ} {h s} (r : Fine.Reach meth init h s) : Reach (Fine.obj meth init) h (Fine.abs s) :=
+  (C02Fine.fine_refines_atomic ro r).2
+
+/-! ### Instance: a slice queue whose `Dequeue` is two micro-steps -/
+
+open GoguVerif.Model GoguVerif.Model.Lock in
+/-- method table of a queue over `List Int`; the local state is the answer being assembled -/
+def queueMeth : Spec.C05.Op Int → Fine.Meth (List Int) (Spec.C05.Out Int) (Spec.C05.Out Int)
+  | .enqueue x => ⟨.w, [fun p => (p.1 ++ [x], p.2)], .unit, id⟩
+  | .dequeue => ⟨.w, [fun p => (p.1, match p.1 with | [] => .deq default true | x :: _ => .deq x false),
+                       fun p => (p.1.tail, p.2)], .unit, id⟩
+  | .peek => ⟨.r, [fun p => (p.1, .val (p.1.head?.getD default))], .unit, id⟩
+  | .search x => ⟨.r, [fun p => (p.1, .bool (decide (x ∈ p.1)))], .unit, id⟩
+  | .size => ⟨.r, [fun p => (p.1, .int p.1.length)], .unit, id⟩
+  | .clear => ⟨.w, [fun p => ([], p.2)], .unit, id⟩
+
+open GoguVerif.Model in
+theorem queueMeth_atomic (s : List Int) (op : Spec.C05.Op Int) :
+    Fine.atomic (queueMeth op) s = Spec.C05.step s op := by
+  cases op <;> simp [Fine.atomic, Fine.runSteps, queueMeth, Spec.C05.step]
+  cases s <;> simp
+
+open GoguVerif.Model in
+theorem queueMeth_readOnly : Fine.ReadOnly queueMeth := by
+  intro op hm f hf p
+  cases op <;> simp [queueMeth] at hm hf <;> subst hf <;> rfl
+
+open GoguVerif.Model in
+/-- Any number of goroutines calling this queue, interleaved at micro-step granularity: the history is a
+legal FIFO run in lock-acquisition order. -/
+theorem queue_fine_linearizable {h s} (r : Fine.Reach queueMeth ([] : List Int) h s) :
+    Legal fifoObj [] (linOps h) s.absObj := by
+  have := fine_linearizable queueMeth_readOnly r
+  have e : Fine.obj queueMeth ([] : List Int) = fifoObj := by
+    simp only [Fine.obj, fifoObj]
+    congr 1
+    funext s op
+    exact queueMeth_atomic s op
+  rw [e] at this; exact this
 
 end GoguVerif.Theorems.C02
